@@ -98,3 +98,17 @@ TEXT["C03"] = {
     "note": "trusts libsimplicity (C) as the specification and the simplicity-sys test bindings used to reach it (C14 monitors those bindings)",
     "technique": "differential monitor against the vendored C implementation over generated/mutated/random encodings",
 }
+TEXT["C06"] = {
+    "level": ("Differential monitoring of the two evaluators on every Elements jet (each executed on both sides in every run) and on generated programs in generated environments; "
+              "decides verdict agreement on each explored (program, witness, environment)."),
+    "design_ref": "DESIGN.md section 5, C06",
+    "note": "trusts libsimplicity's evaluator as the reference for jets; the harness declares evalTCOExpression itself from eval.h",
+    "technique": "differential monitor Rust Bit Machine vs C evaluator over all jets and generated programs/environments",
+}
+TEXT["C08"] = {
+    "level": ("Every successful run of a generated program is followed by prune and a battery of observations (root, re-run, idempotence, re-decode, C anti-DoS acceptance, C roots); "
+              "a defect in pruning under shared nodes was found this way and repaired. Decides the property on each explored (program, witness, environment)."),
+    "design_ref": "DESIGN.md section 5, C08",
+    "note": "trusts libsimplicity's anti-DoS checks (CHECK_ALL) as the consensus rule",
+    "technique": "behavioural monitor around prune with the C evaluator's anti-DoS check as oracle",
+}
